@@ -78,7 +78,10 @@ var runeRanges = [][2]rune{{0x20, 0x7e}, {0, 0x1f}, {0x7f, 0xff}, {0x100, 0x7ff}
 	{0x10000, 0x10ffff}, {0x2028, 0x2029}, {0xfff0, 0xffff}}
 
 func randString(r *lib.Rng) string {
-	switch r.Intn(6) {
+	switch r.Intn(8) {
+	case 6, 7:
+		// content that looks like JSON text: escape sequences, marshalled strings, trailing backslashes (strlex.go)
+		return escString(r)
 	case 0:
 		return poolStrings[r.Intn(len(poolStrings))]
 	case 1:
